@@ -208,7 +208,8 @@ def multinomial_rvs(n, p, size=None, random_state=None):
     m = p.shape[0]
     pos = stream.pos
     stream.pos += 1
-    DRAW_LOG.append((stream.sid, pos, "multinomial", m))
+    # the draw is logged with its arguments: which sample size, which probability vector
+    DRAW_LOG.append((stream.sid, pos, "multinomial", m, n, [x for x in p.a.reshape(-1).tolist()]))
     out = NP.zeros((m,), NP.int64)
     for k in range(m):
         out.a[k] = _draw_symbol(stream.sid, pos, k, "multinomial")
